@@ -487,7 +487,8 @@ def correspondence(ctx):
             if fam == 'dnf-family':
                 # the theorem's family: beyond the ties, the REAL decompiler must return exactly the source
                 dist['dnf_family_cases'] = dist.get('dnf_family_cases', 0) + 1
-                if o['result'] != '(XGen PVar [[%s]])' % M.ptree(ast.parse(L.src(e), mode='eval').body):
+                want = M.ptree(ast.parse(L.src(e), mode='eval').body)
+                if o['result'] != ('(XGen PVar [[%s]])' % want if kind == 'filter' else '(XGen %s [[]])' % want):
                     disagreements.append({'what': 'C03_andor_partial(_cnf) family: the real decompiler does not return the source', 'input': L.source_text(e, kind), 'impl': o['result']})
             if L.natoms(e) > 6:
                 texprs.append('andb (compile_domain %s %s) (tie_noexec %s %s %s [%s] %d %s)' % (
@@ -583,6 +584,10 @@ def model_cases(ctx):
         if L.key_tuple(e) in seen: continue
         seen.add(L.key_tuple(e))
         out.append(('dnf-family', e, ['filter']))
+    for n in range(1, ctx.scale(9, 11)):
+        # the family of C03_ifexp_partial: (xa if t1 and ... and tn else xb) in element position
+        ts = [('A', i) for i in range(n)]
+        out.append(('dnf-family', ('If', ts[0] if n == 1 else ('And', ts), ('A', n), ('A', n + 1)), ['elt']))
     return out
 
 
